@@ -74,6 +74,11 @@ type CoreOp struct {
 	Mut *Op `json:"mut,omitempty"`
 	// Latest is the provider's answer to GetLatestHeight for the "latest" call (offset to the tip).
 	Latest int `json:"latest,omitempty"`
+	// AtLatest makes the caller ask for "the latest height" (height 0) instead of a number; Core
+	// then asks the provider for the latest height, possibly more than once during one request,
+	// and the provider answers with tip+LatestSeq[i] on its i-th answer (the last one repeats).
+	AtLatest  bool  `json:"at_latest,omitempty"`
+	LatestSeq []int `json:"latest_seq,omitempty"`
 }
 
 var coreCalls = []string{"block", "txs", "txproofs", "results", "txresults", "stateroot", "vals", "lightblock", "latest", "submit"}
@@ -135,6 +140,17 @@ func (CoreEngine) Generate(r *core.Rand, tier core.Tier) *core.Scenario {
 			if r.Chance(1, 8) {
 				op.Latest = -1 << 40
 			}
+		}
+		if r.Chance(1, 8) && (op.Call == "block" || op.Call == "txs" || op.Call == "results" || op.Call == "txresults" || op.Call == "stateroot") {
+			op.AtLatest = true
+			for j, n := 0, r.Range(1, 3); j < n; j++ {
+				op.LatestSeq = append(op.LatestSeq, -r.Pick([]int{3, 3, 2, 1}))
+			}
+			if r.Chance(1, 6) {
+				op.LatestSeq[r.Intn(len(op.LatestSeq))] = r.Range(1, 2) // a height the network does not have
+			}
+			sc.Ops = append(sc.Ops, core.MustJSON(op))
+			continue
 		}
 		if ep := coreMutEP[op.Call]; ep != "" && r.Chance(3, 5) {
 			ops := opTable[ep]
@@ -222,12 +238,16 @@ type byzProvider struct {
 	res    *consensusAPI.BlockResults
 	vals   *consensusAPI.Validators
 	latest *int64
-	proof  *transaction.Proof
-	calls  int
+	// latestSeq, when set, are the answers to consecutive GetLatestHeight calls (last repeats).
+	latestSeq []int64
+	latestN   int
+	proof     *transaction.Proof
+	calls     int
 }
 
 func (p *byzProvider) reset() {
 	p.blk, p.txs, p.hasTxs, p.res, p.vals, p.latest, p.proof = nil, nil, false, nil, nil, nil, nil
+	p.latestSeq, p.latestN = nil, 0
 }
 
 func (p *byzProvider) idx(height int64) int {
@@ -288,6 +308,11 @@ func (p *byzProvider) GetValidators(_ context.Context, height int64) (*consensus
 
 func (p *byzProvider) GetLatestHeight(context.Context) (int64, error) {
 	p.calls++
+	if len(p.latestSeq) > 0 {
+		i := min(p.latestN, len(p.latestSeq)-1)
+		p.latestN++
+		return p.latestSeq[i], nil
+	}
 	if p.latest != nil {
 		return *p.latest, nil
 	}
@@ -427,6 +452,9 @@ func (cr *coreRun) step(i int, op *CoreOp) *core.Violation {
 		}
 	}
 
+	if op.AtLatest {
+		return cr.stepLatest(i, op)
+	}
 	switch op.Call {
 	case "block":
 		var b *consensusAPI.Block
@@ -890,3 +918,165 @@ func (CoreEngine) Execute(sc *core.Scenario, st *core.Stats) (*core.Violation, b
 
 var _ = hash.Hash{}
 var _ = cmtAPI.BackendName
+
+// stepLatest executes a request for "the latest height": Core resolves the height through the
+// provider, possibly more than once, and the provider may answer differently each time. Whatever
+// is returned must be the data of ONE height that the provider claimed and the light client could
+// verify, bound like any other answer.
+func (cr *coreRun) stepLatest(i int, op *CoreOp) *core.Violation {
+	c, st := cr.c, cr.st
+	tipH := c.hs[cr.net.tip].lb.Height
+	claimed := map[int]bool{}
+	for _, off := range op.LatestSeq {
+		h := tipH + int64(off)
+		cr.prov.latestSeq = append(cr.prov.latestSeq, h)
+		if idx := cr.idxOf(h); idx >= 0 && idx <= cr.net.tip {
+			claimed[idx] = true
+		}
+	}
+	if len(cr.prov.latestSeq) == 0 {
+		cr.prov.latestSeq = []int64{tipH}
+		claimed[cr.net.tip] = true
+	}
+	cr.effective++
+	st.Inc("fault.core.latest-height-sequence")
+	bad := func(kind, detail string) *core.Violation {
+		return cviol(kind, kind+" at-latest", fmt.Sprintf("step %d (%s at the latest height; the provider answers GetLatestHeight with %v, network tip %d): %s", i, op.Call, cr.prov.latestSeq, tipH, detail))
+	}
+	const latest = consensusAPI.HeightLatest
+	switch op.Call {
+	case "block":
+		var got *consensusAPI.Block
+		err, v := cr.call(i, op, "GetBlock(latest)", func() (e error) { got, e = cr.core.GetBlock(cr.ctx, latest); return })
+		if v != nil {
+			return v
+		}
+		st.Event("step %d block@latest seq=%v %s", i, cr.prov.latestSeq, errStr(err))
+		if err != nil {
+			return nil
+		}
+		idx := cr.idxOf(got.Height)
+		if !claimed[idx] {
+			return bad("latest-height-unverified", fmt.Sprintf("GetBlock returned a block of height %d", got.Height))
+		}
+		if bound, _, _ := diffBlock(projBlock(c.hs[idx].block), projBlock(got)); len(bound) > 0 {
+			return bad("block-accepted-altered", fmt.Sprintf("the returned block of height %d differs from the honest block in %v", got.Height, bound))
+		}
+	case "txs":
+		var got [][]byte
+		err, v := cr.call(i, op, "GetTransactions(latest)", func() (e error) { got, e = cr.core.GetTransactions(cr.ctx, latest); return })
+		if v != nil {
+			return v
+		}
+		st.Event("step %d txs@latest seq=%v %s", i, cr.prov.latestSeq, errStr(err))
+		if err != nil {
+			return nil
+		}
+		ok := false
+		for idx := range claimed {
+			if eqList(got, c.hs[idx].txs) {
+				ok = true
+			}
+		}
+		if !ok {
+			return bad("txs-accepted-altered", "the returned transactions are not the transactions of any height the provider claimed as latest")
+		}
+	case "results", "txresults":
+		var got *consensusAPI.BlockResults
+		var twr *consensusAPI.TransactionsWithResults
+		what := "GetBlockResults(latest)"
+		if op.Call == "txresults" {
+			what = "GetTransactionsWithResults(latest)"
+		}
+		err, v := cr.call(i, op, what, func() (e error) {
+			if op.Call == "txresults" {
+				twr, e = cr.core.GetTransactionsWithResults(cr.ctx, latest)
+				return
+			}
+			got, e = cr.core.GetBlockResults(cr.ctx, latest)
+			return
+		})
+		if v != nil {
+			return v
+		}
+		last := cr.lastTrusted()
+		st.Event("step %d %s@latest seq=%v trusted=%d %s", i, op.Call, cr.prov.latestSeq, last, errStr(err))
+		if err != nil {
+			return nil
+		}
+		if got != nil {
+			idx := cr.idxOf(got.Height)
+			if !claimed[idx] {
+				return bad("latest-height-unverified", fmt.Sprintf("GetBlockResults returned results labelled height %d", got.Height))
+			}
+			if got.Height < last {
+				if bound := diffResults(projResults(c.hs[idx].resultsAll), projResults(got)); len(bound) > 0 {
+					return bad("results-accepted-altered", fmt.Sprintf("the returned results of height %d (latest trusted %d) differ from the honest ones in %v", got.Height, last, bound))
+				}
+			}
+			break
+		}
+		// Transactions and results must belong to the same height.
+		txIdx := -1
+		for idx := range claimed {
+			if eqList(twr.Transactions, c.hs[idx].txs) {
+				txIdx = idx
+			}
+		}
+		if txIdx < 0 {
+			return bad("txs-accepted-altered", "the returned transactions are not the transactions of any height the provider claimed as latest")
+		}
+		hp := projResults(c.hs[txIdx].resultsAll)
+		if len(twr.Results) != len(hp.entries) {
+			return bad("results-of-another-height", fmt.Sprintf("the transactions are those of height %d (%d results expected), %d results returned", c.hs[txIdx].lb.Height, len(hp.entries), len(twr.Results)))
+		}
+		if c.hs[txIdx].lb.Height < last {
+			for j, r := range twr.Results {
+				e := hp.entries[j]
+				if r.Error.Code != e.code || int64(r.GasUsed) != e.gu {
+					return bad("results-of-another-height", fmt.Sprintf("the transactions are those of height %d, but result %d is {code %d gas %d} while that block's result is {code %d gas %d}: transactions and results bound to different headers were combined", c.hs[txIdx].lb.Height, j, r.Error.Code, r.GasUsed, e.code, e.gu))
+				}
+			}
+			st.Inc("probe.core.at_latest_txresults_checked_below_latest_trusted")
+		}
+	case "stateroot":
+		var got mkvsNode.Root
+		err, v := cr.call(i, op, "StateRoot(latest)", func() (e error) { got, e = cr.core.StateRoot(cr.ctx, latest); return })
+		if v != nil {
+			return v
+		}
+		st.Event("step %d stateroot@latest seq=%v %s", i, cr.prov.latestSeq, errStr(err))
+		if err != nil {
+			return nil
+		}
+		// The state root of version v is bound by the verified header v+1 (its application hash),
+		// or, for the newest height, by the metadata transaction of the verified block v.
+		wasClaimed := false
+		for _, h := range cr.prov.latestSeq {
+			if h == int64(got.Version) {
+				wasClaimed = true
+			}
+		}
+		var want hash.Hash
+		switch next, idx := cr.idxOf(int64(got.Version)+1), cr.idxOf(int64(got.Version)); {
+		case !wasClaimed:
+			return bad("latest-height-unverified", fmt.Sprintf("StateRoot returned a root of version %d", got.Version))
+		case next >= 0 && next <= cr.net.tip:
+			if err := want.UnmarshalBinary(c.hs[next].lb.AppHash); err != nil {
+				core.Harnessf("stateless-core: app hash: %v", err)
+			}
+		case idx >= 0 && idx <= cr.net.tip:
+			want = c.hs[idx].rootAfter
+		default:
+			return bad("latest-height-unverified", fmt.Sprintf("StateRoot returned a root of version %d, which no verifiable header binds", got.Version))
+		}
+		if got.Hash != want {
+			return bad("stateroot-wrong", fmt.Sprintf("StateRoot returned %v; the state root after block %d is %s", got, got.Version, want))
+		}
+	default:
+		core.Harnessf("stateless-core: call %q cannot be made at the latest height", op.Call)
+	}
+	st.Inc("probe.core.returned_at_latest." + op.Call)
+	cr.returned++
+	return nil
+}
